@@ -205,13 +205,13 @@ func (Segment).Rewrite
                      && msg.Offset == recOffset(srcLog.gfile, recIdx(srcLog.gfile, srcPosition)) at call message.Size 1
     loop 1
       invariant[sync] wrOK(dstLog) && dstLog.Path == dst.Log && (forall g *os.File :: !fresh(g) ==> fPath[g] == old(fPath[g]))
-      invariant[del_file]      srcLog != nil && srcLog.gfile == old(fsContent)[src.Log] && srcVersion == srcLog.v && srcVersion == verOf(srcLog.gfile) && dst != nil && fresh(dst) && dst.SurviveOffsets != nil
+      invariant[del_file]      srcLog != nil && srcLog.gfile == old(fsContent)[src.Log] && srcLog.v == verOf(srcLog.gfile) && dst != nil && fresh(dst) && dst.SurviveOffsets != nil
       invariant[del_pos]       atIdx(srcLog.gfile, srcPosition)
       invariant[del_count]     len(dst.DeletedMessages) == delCount(srcLog.gfile, recIdx(srcLog.gfile, srcPosition), domain(dropOffsets))
       invariant[del_requested] forall j :: 0 <= j && j < len(dst.DeletedMessages) ==> has(dropOffsets, dst.DeletedMessages[j].Offset)
       invariant[del_offsets]   forall j :: 0 <= j && j < len(dst.DeletedMessages) ==>
                                    dst.DeletedMessages[j].Offset == recOffset(srcLog.gfile, delIdx(srcLog.gfile, domain(dropOffsets), j))
-      invariant[del_size]      dst.DeletedSize == delSum(srcLog.gfile, recIdx(srcLog.gfile, srcPosition), domain(dropOffsets), hdrSize(srcVersion), params.Size())
+      invariant[del_size]      dst.DeletedSize == delSum(srcLog.gfile, recIdx(srcLog.gfile, srcPosition), domain(dropOffsets), hdrSize(srcLog.v), params.Size())
       invariant[del_survive]   (forall o int64 :: has(dst.SurviveOffsets, o) ==> !has(dropOffsets, o))
                                    && (forall i :: 0 <= i && i < recIdx(srcLog.gfile, srcPosition) && !has(dropOffsets, recOffset(srcLog.gfile, i))
                                            ==> has(dst.SurviveOffsets, recOffset(srcLog.gfile, i)))
